@@ -96,7 +96,7 @@ def run_c17(tier, seed, t0):
             f.write(json.dumps(d, separators=(",", ":")) + "\n")
     os.remove(hist + ".b")
     cfg = "SPECIFICATION Spec\nCONSTANTS RecursiveTeardown = FALSE\nINVARIANTS\n  C17_Contract\n  M_NoDrift\n  C17_StateIsBST\nCHECK_DEADLOCK TRUE\n"
-    out2, dt2 = vlib.run_tlc("TraceSplay.tla", cfg, os.path.join(wd, "trace"), env={"TRACEFILE": hist}, timeout=3000)
+    out2, dt2 = vlib.run_tlc_trace("TraceSplay.tla", cfg, os.path.join(wd, "trace"), hist, timeout=3000)
     res2 = vlib.parse_tlc(out2, {"C17_Contract", "M_NoDrift", "C17_StateIsBST"})
     if res2["tool_errors"]:
         raise ToolError("TraceSplay: %s" % res2["tool_errors"][:3])
